@@ -34,7 +34,8 @@ DSET, DGET, DDEL, SADD, SDISC, SIN, NEWSET, COPY = 20, 21, 22, 23, 24, 25, 26, 2
 # mode 0 key / 1 (key, value) / 2 value - one next() on the generator, None once it is exhausted.  Iterators share
 # the numbering of the cursors (in the model an iterator IS a registered cursor).
 ITOPEN, ITNEXT = 18, 19
-# MutableMapping / MutableSet mixin methods (driven on the implementation and the reference only)
+NMIN, NMAX = 28, 29  # tree.root.minimum() / maximum()
+# MutableMapping / MutableSet mixin methods
 DPOP, DPOPITEM, DCLEAR, DSETDEFAULT, DUPDATE, SREMOVE, SPOP, SCLEAR = 40, 41, 42, 43, 44, 45, 46, 47
 MIXIN = {DPOP, DPOPITEM, DCLEAR, DSETDEFAULT, DUPDATE, SREMOVE, SPOP, SCLEAR}
 MUTATING = {INS, DEL, DELX, DSET, DDEL, SADD, SDISC} | MIXIN
@@ -125,17 +126,15 @@ class ImplWorld:
         cmap = {id(t.creator): i for i, t in enumerate(self.trees)}
         out = []
 
-        def walk(n):
+        def visit(n):
             es = []
             for e in n.elts:
                 es.append(e.key())
                 es.append(e.value() if hasattr(e, "value") else 0)
             out.append([_SER["map"].get(id(n), -1), cmap.get(id(n.creator), -1), int(n.is_leaf), es,
                         [_SER["map"].get(id(c), -1) for c in n.children]])
-            for c in n.children:
-                walk(c)
 
-        walk(tr.root)
+        tr._visit_preorder_by_node(visit)  # the library's own preorder walk (the model's sdump order)
         return out
 
     def elt(self, k, v):
@@ -215,6 +214,10 @@ class ImplWorld:
                 return [[dump_node(tr.root), 1], self.store_dump(tr), 1]
             if c == ITER:
                 return list(iter(tr))
+            if c == NMIN:
+                return elt_obs(tr.root.minimum())
+            if c == NMAX:
+                return elt_obs(tr.root.maximum())
             if c == DSET:
                 tr[op[2]] = op[3]
                 return None
@@ -382,6 +385,11 @@ class RefWorld:
             return "dump"
         if c == ITER:
             return tr.keys()
+        if c in (NMIN, NMAX):
+            if not tr.d:
+                return Err(E_INDEX)
+            k = min(tr.d) if c == NMIN else max(tr.d)
+            return [k, tr.d[k]]
         if c == DSET:
             tr.d[op[2]] = op[3]
             return None
@@ -566,12 +574,6 @@ def check_history(case, deep_every=1):
     return F
 
 
-def in_model(kind, case):
-    if case[0] != 0:
-        return True
-    return not any(isinstance(op, list) and op and op[0] in MIXIN for op in case[1:])
-
-
 def oracle(ctx, kind, case, out):
     if case[0] == 30:
         return []
@@ -634,6 +636,17 @@ class Gen:
             return
         v = self.fresh()
         r = self.rng.random()
+        if r < 0.06:
+            # MutableMapping.setdefault / update
+            if self.rng.random() < 0.5:
+                self.ops.append([DSETDEFAULT, ti, k, v])
+                if not tr["frozen"] and k not in tr["keys"]:
+                    tr["keys"][k] = v
+            else:
+                self.ops.append([DUPDATE, ti, k, v])
+                if not tr["frozen"]:
+                    tr["keys"][k] = v
+            return
         if r < 0.75:
             self.ops.append([INS, ti, k, v, int(tr["io"] if io is None else io)])
             self.ident.add(v)  # the element object with this id is known to the runner
@@ -649,6 +662,22 @@ class Gen:
                 k = self.rng.choice(sorted(tr["keys"]))
             else:
                 k = self.key()
+        if self.rng.random() < 0.08:
+            # the mixins: pop(k) / remove(k) (KeyError when absent), popitem() / pop(), clear()
+            q = self.rng.random()
+            if q < 0.6:
+                self.ops.append([SREMOVE if self.set_kind else DPOP, ti, k])
+                if not tr["frozen"]:
+                    tr["keys"].pop(k, None)
+            elif q < 0.95 or len(tr["keys"]) > 40:
+                self.ops.append([SPOP if self.set_kind else DPOPITEM, ti])
+                if not tr["frozen"] and tr["keys"]:
+                    tr["keys"].pop(min(tr["keys"]))
+            else:
+                self.ops.append([SCLEAR if self.set_kind else DCLEAR, ti])
+                if not tr["frozen"]:
+                    tr["keys"].clear()
+            return
         if self.set_kind:
             self.ops.append([SDISC, ti, k])
         else:
@@ -674,7 +703,9 @@ class Gen:
             if self.set_kind:
                 self.ops.append([SIN, ti, k])
                 return
-        if self.set_kind:
+        if self.rng.random() < 0.1:
+            self.ops.append([self.rng.choice([NMIN, NMAX]), ti])
+        elif self.set_kind:
             self.ops.append(self.rng.choice([[SIN, ti, k], [LEN, ti], [ITER, ti]]))
         elif r < 0.4:
             self.ops.append([GET, ti, k])
@@ -1006,8 +1037,10 @@ def targeted_cases2(ctx):
             ops = [[NEWSET, t, io]]
             for k in (5, 1, 9, 3, 7, 1, 11, 0, 13, 2, 15, 4, 17, 6):
                 ops += [[SADD, 0, k], [SIN, 0, k], [SIN, 0, k + 100]]
+            ops += [[NMIN, 0], [NMAX, 0], [SREMOVE, 0, 17], [SREMOVE, 0, 17], [SPOP, 0], [LEN, 0], [ITER, 0]]
             ops += [[LEN, 0], [ITER, 0], [CUR, 0], [SEEK, 0, 4, 1], [NEXT, 0], [SDISC, 0, 5], [NEXT, 0], [SDISC, 0, 99], [LEN, 0],
-                    [FREEZE, 0], [SADD, 0, 50], [SDISC, 0, 1], [COPY, 0], [SADD, 1, 50], [SDISC, 1, 0], [ITER, 0], [ITER, 1], [DUMP, 0], [DUMP, 1]]
+                    [FREEZE, 0], [SADD, 0, 50], [SDISC, 0, 1], [COPY, 0], [SADD, 1, 50], [SDISC, 1, 0], [ITER, 0], [ITER, 1], [DUMP, 0], [DUMP, 1],
+                    [SPOP, 1], [SREMOVE, 1, 50], [ITER, 1], [SCLEAR, 1], [LEN, 1], [SPOP, 1], [SCLEAR, 1], [SADD, 1, 3], [DUMP, 1], [ITER, 0]]
             yield "set-api", [0] + ops
     for t in (3, 4, 5, 127):
         for io in (0, 1):
@@ -1015,10 +1048,13 @@ def targeted_cases2(ctx):
             ops = [[NEW, t, io]]
             for k in (5, 1, 9, 3, 7, 1, 11, 0, 13, 2, 15, 4, 17, 6, 5):
                 ops += [[DSET, 0, k, fresh()], [DGET, 0, k], [DGET, 0, k + 100], [LEN, 0]]
+            ops = [[NEW, t, io], [NMIN, 0], [NMAX, 0], [DPOPITEM, 0], [DCLEAR, 0], [DPOP, 0, 1]] + ops[1:] + [[NMIN, 0], [NMAX, 0]]
+            ops += [[DPOP, 0, 9], [DPOP, 0, 9], [DSETDEFAULT, 0, 9, fresh()], [DSETDEFAULT, 0, 9, fresh()], [DUPDATE, 0, 21, fresh()], [DUPDATE, 0, 21, fresh()], [DPOPITEM, 0], [NMIN, 0]]
             ops += [[DDEL, 0, 99], [DDEL, 0, 5], [DDEL, 0, 5], [DGET, 0, 5], [ITER, 0], [ITEMS, 0], [LEN, 0],
                     [CLONE, 0, 0], [COPY, 0], [NEW, 2, 0], [NEW, 0, 0], [FREEZE, 0], [FREEZE, 0], [DSET, 0, 1, fresh()], [DDEL, 0, 1], [DEL, 0, 1],
                     [DELX, 0, 1, 1], [INS, 0, 77, fresh(), 0], [DGET, 0, 1], [CLONE, 0, io], [DSET, 1, 1, fresh()], [DDEL, 1, 3], [DGET, 0, 1],
-                    [DGET, 0, 3], [DGET, 1, 3], [CLONE, 1, 0], [FREEZE, 1], [CLONE, 1, 0], [ITEMS, 0], [ITEMS, 1], [ITEMS, 2], [LEN, 2]]
+                    [DGET, 0, 3], [DGET, 1, 3], [CLONE, 1, 0], [FREEZE, 1], [CLONE, 1, 0], [ITEMS, 0], [ITEMS, 1], [ITEMS, 2], [LEN, 2],
+                    [CUR, 2], [SEEK, 0, 7, 1], [NEXT, 0], [DCLEAR, 2], [NEXT, 0], [LEN, 2], [NMAX, 2], [DUMP, 2], [DSET, 2, 4, fresh()], [PREV, 0], [DUMP, 2], [ITEMS, 0]]
             yield "dict-api", [0] + ops
     for t in (3, 4, 5):
         for n in (2 * t - 1, 2 * t, 6 * t, 30 * t):
